@@ -8,7 +8,8 @@
 (***************************************************************************)
 EXTENDS ImplEncoder, TLCExt
 
-CONSTANTS EncName, Source, Repl, Alphabet, MaxPend, Caps
+CONSTANTS EncName, Repl, Alphabet, MaxPend, Caps
+Source == EncSource
 
 VARIABLES st, m, staged, eos, hist
 vars == <<st, m, staged, eos, hist>>
